@@ -396,6 +396,10 @@ pub fn run(ctx: &Arc<Ctx>) {
     for il in (0..=300usize).step_by(ctx.tier.pick(7usize, 3)) {
         cfgs.push(mk(&annex.ke, &format!("len:{}", il), &format!("len:{}", 300 - il), &mut g));
     }
+    // identities on both sides of the 16-bit bit-length limit that SM2 has and SM9 has not, either party
+    for (la, lb) in [(8191usize, 5usize), (8192, 5), (5, 8192), (9000, 8191), (65536, 70000)] {
+        cfgs.push(mk(&annex.ke, &format!("len:{}", la), &format!("len:{}", lb), &mut g));
+    }
     for c in cfgs.iter().skip(n_cfg_before_idlen) {
         cases.push(Case { cfg: c.clone(), klen: 16, adv: [0, 0], tag: "honest/idlen-sweep".into() });
     }
